@@ -101,6 +101,24 @@ def frames_strategy(max_frames=12, big=False):
 
 @st.composite
 def case_strategy(draw, big=False):
+    if draw(st.integers(0, 5)) == 0:
+        # focused family: one segment whose frame boundaries coincide with the 1024-byte recv() chunks - the TCP receiver
+        # thread appends the next chunk while the protocol thread, preempted inside the buffer / framing code, is taking
+        # out a frame that is at that moment exactly the whole buffer
+        exact = [n for n in (_n_for_frame_len("S7F3", t) for t in (1024, 2048)) if n is not None]
+        frames = []
+        for i in range(draw(st.integers(1, 3))):
+            frames.append({"k": "S7F3", "sys": 0x20000 + i, "n": draw(st.sampled_from(exact)), "fill": draw(st.integers(0, 255))})
+        for k in draw(st.lists(st.sampled_from(["LT", "S1F1", "S6F12", "S10F3"]), min_size=1, max_size=4)):
+            d = {"k": k, "sys": 0x20000 + len(frames)}
+            if k == "S10F3":
+                d["n"] = draw(st.integers(0, 40))
+            if k in ("S10F3", "S6F12"):
+                d["fill"] = draw(st.integers(0, 255))
+            frames.append(d)
+        sched = {"seed": draw(st.integers(1, 2**31)), "switch": draw(st.sampled_from([0.3, 0.7])), "pprob": draw(st.sampled_from([0.1, 0.3, 0.5])),
+                 "hot": ["pop", "peek", "__len__", "_process_received_data"]}
+        return {"frames": frames, "cuts": [], "bursts": [0], "sched": sched, "mode": "chunk-race"}
     frames = draw(frames_strategy(big=big))
     lens = [len(frame_bytes(f)) for f in frames]
     total = sum(lens)
@@ -140,9 +158,15 @@ def case_strategy(draw, big=False):
         st.one_of(
             st.just({"seed": 0}),
             st.builds(lambda s, p: {"seed": s, "switch": p}, st.integers(1, 2**31), st.sampled_from([0.05, 0.3, 0.7])),
+            # line-level (parked) preemptions inside the receive buffer and the framing loop: the TCP receiver thread appends
+            # the next segment while the protocol thread is in the middle of looking at / taking bytes out of the buffer
+            st.builds(lambda s, p, pp: {"seed": s, "switch": p, "pprob": pp, "hot": list(HOT)}, st.integers(1, 2**31), st.sampled_from([0.3, 0.7]), st.sampled_from([0.02, 0.1, 0.3])),
         )
     )
     return {"frames": frames, "cuts": cuts, "bursts": [1 if b else 0 for b in bursts], "sched": sched, "mode": mode}
+
+
+HOT = ("pop", "peek", "append", "wait_for", "pop_byte", "wait_for_byte", "__len__", "clear", "_process_received_data", "_on_connection_data_received", "queue_block")
 
 
 def classify(case):
@@ -183,6 +207,8 @@ def classify(case):
         cls.append("single-bytes>=8")
     if case["sched"].get("seed"):
         cls.append("random-schedule")
+    if case["sched"].get("pprob"):
+        cls.append("line-preemptions-in-receive-buffer")
     if any(f.get("n", 0) > 1024 for f in frames):
         cls.append("body>1024")
     if any(l % 1024 == 0 for l in lens):
